@@ -1,4 +1,5 @@
 import QuiverModel.Core.Types.Compat
+import QuiverModel.Lemmas.Types.Rename
 import QuiverModel.Theorems.C09
 /-
 C08 — Runtime type tests accept only members and never reject known members.
@@ -217,26 +218,73 @@ theorem mailbox_filter_spec (fp bp : List (List CTag)) (msg : CTag) (src : Sourc
     | some set => simp
   | other => simp [checkMessage]
 
-/-! ### renaming invariance — statement, and the kernel-checked F13 witness
+/-! ### renaming invariance, and the kernel-checked F13 witness
 
-`RenameInvariantStatement`: for an embedding `ρ` of one compatibility input into another (injective
-on type ids, tuple ids, function ids, builtin ids, resource ids; every entry of the image is the
-`ρ`-image of the entry; every tag with a type entry keeps one), acceptance is preserved. Tree shaking
-and merging are such embeddings *provided the side condition on type entries holds* — which is what
-F13 broke: the `Type::Process` entry that only the index uses was dropped. Not proved here (it needs
-`checkRel` to commute with injective renamings, arm by arm); the harness compares the three
-configurations of every compiled program structurally instead. -/
+Tree shaking, merging behind other programs and module import rename type ids and tuple ids. If the
+new table contains a renamed copy of the old one (`Embeds ρ τ T T'`: `ρ`, `τ` injective, the entry at
+the image of an id is the renamed entry), the relation gives the same verdicts on the images
+(`checkRelV_map`, proved arm by arm for every mode, fuel, assumption set, stack and historical
+variant). Hence a tag is accepted by the image of a pattern exactly when it was accepted by the
+pattern — *provided the tag still has a type entry and it is the image of the old one*. That side
+condition is what F13 broke: the `Type::Process` entry that only the index uses was dropped. -/
 
-def RenameInvariantStatement : Prop :=
-  ∀ (inp inp' : CInput) (ρty ρtag : Nat → Nat) (fuel : Nat),
-    (∀ a b, ρty a = ρty b → a = b) →
-    (∀ t ty, inp.table.types[t]? = some ty → ∃ ty', inp'.table.types[ρty t]? = some ty') →
-    ∀ (c : CTag) (p id : Nat), tagType inp (TypeIndex.build inp.table) c = some id →
-      tagType inp' (TypeIndex.build inp'.table) (match c with | .tuple i => .tuple (ρtag i) | c => c) =
-        some (ρty id) →
-      tagAccepts inp (TypeIndex.build inp.table) fuel p c =
-        tagAccepts inp' (TypeIndex.build inp'.table) fuel (ρty p)
-          (match c with | .tuple i => .tuple (ρtag i) | c => c)
+theorem compat_rename {ρ τ : Nat → Nat} {T T' : Table} (E : Embeds ρ τ T T') (fuel a b : Nat) :
+    isCompatible T' fuel (ρ a) (ρ b) = isCompatible T fuel a b := by
+  have := checkRelV_map E Variant.current .all fuel [] [] a b
+  simp only [mapAsm, List.map_nil] at this
+  unfold isCompatible checkRel
+  rw [this]
+  cases checkRelV Variant.current T .all fuel [] [] a b <;> rfl
+
+theorem overlap_rename {ρ τ : Nat → Nat} {T T' : Table} (E : Embeds ρ τ T T') (fuel a b : Nat) :
+    typesOverlap T' fuel (ρ a) (ρ b) = typesOverlap T fuel a b := by
+  have := checkRelV_map E Variant.current .any fuel [] [] a b
+  simp only [mapAsm, List.map_nil] at this
+  unfold typesOverlap checkRel
+  rw [this]
+  cases checkRelV Variant.current T .any fuel [] [] a b <;> rfl
+
+/-- **Renaming invariance of the runtime test.** `c'` is the tag `c` in the new numbering (tuple,
+function, builtin, resource ids renamed in any way); if its type entry is the image of the old one,
+it is accepted by the image of a pattern exactly when `c` was accepted by the pattern. -/
+theorem rename_invariant {ρ τ : Nat → Nat} (inp inp' : CInput) (E : Embeds ρ τ inp.table inp'.table)
+    (fuel p id : Nat) (c c' : CTag)
+    (h : tagType inp (TypeIndex.build inp.table) c = some id)
+    (h' : tagType inp' (TypeIndex.build inp'.table) c' = some (ρ id)) :
+    tagAccepts inp' (TypeIndex.build inp'.table) fuel (ρ p) c' =
+      tagAccepts inp (TypeIndex.build inp.table) fuel p c := by
+  rw [tagAccepts_of_type inp' _ fuel (ρ p) (ρ id) c' h', tagAccepts_of_type inp _ fuel p id c h]
+  exact compat_rename E fuel id p
+
+/-- …and the converse side condition: a tag that lost its entry is accepted by nothing (F13) -/
+theorem rename_loses_tag_without_entry (inp' : CInput) (fuel p' : Nat) (c' : CTag)
+    (h' : tagType inp' (TypeIndex.build inp'.table) c' = none)
+    (hc : c' ≠ .integer ∧ c' ≠ .binary ∧ c' ≠ .reference) :
+    tagAccepts inp' (TypeIndex.build inp'.table) fuel p' c' = some false :=
+  tagAccepts_absent inp' _ fuel p' c' h' hc
+
+/-- the hypotheses of `rename_invariant` are satisfiable by a non-trivial embedding: F12's table
+shifted by one type id (a `ref` entry in front) and with tuple ids 2,3,4 moved to 4,2,3 -/
+example : ∃ (ρ τ : Nat → Nat) (T' : Table), Embeds ρ τ C09.tF12 T' ∧ ρ 3 = 4 ∧ τ 2 = 4 := by
+  refine ⟨fun t => t + 1, fun i => if i = 2 then 4 else if i = 3 then 2 else if i = 4 then 3 else i,
+    ⟨.reference :: C09.tF12.types.map (Ty.rename (fun t => t + 1)
+        (fun i => if i = 2 then 4 else if i = 3 then 2 else if i = 4 then 3 else i)),
+      [⟨none, []⟩, ⟨some 1, []⟩, ⟨some 2, [(none, 1), (none, 1)]⟩, ⟨some 2, [(none, 1), (none, 2)]⟩,
+       ⟨some 2, [(none, 3), (none, 2)]⟩]⟩, ?_, rfl, rfl⟩
+  refine ⟨fun a b h => by omega, fun a b h => ?_, fun t => ?_, fun i => ?_⟩
+  · (repeat' split at h) <;> omega
+  · simp only [List.getElem?_cons_succ, List.getElem?_map]
+  · by_cases h2 : i = 2
+    · subst h2; rfl
+    · by_cases h3 : i = 3
+      · subst h3; rfl
+      · by_cases h4 : i = 4
+        · subst h4; rfl
+        · simp only [h2, h3, h4, if_false]
+          match i, h2, h3, h4 with
+          | 0, _, _, _ => rfl
+          | 1, _, _, _ => rfl
+          | n + 5, _, _, _ => rfl
 
 /-- F13, direct: 0 int, 1 never, 2 `#(int -> int ! never)` (the spawned function's type),
 3 `@(never / int)` = the `Type::Process` entry registered at the spawn site, 4 = 3's use as a
@@ -245,10 +293,8 @@ def f13Direct : CInput :=
   ⟨⟨[.integer, .union [], .callable 0 0 1, .process (some 1) (some 0)], [⟨none, []⟩, ⟨some 1, []⟩]⟩,
    [⟨2, [3]⟩], [], []⟩
 
-/-- F13, tree-shaken by the old code: the process entry is gone (no instruction refers to it); a
-receive typed with the process type is now pattern 3 = `@(never / int)` registered again LAST,
-i.e. present as a pattern but the index was built when… — modelled minimally: same table without a
-`Type::Process` entry at all, pattern 2 used instead -/
+/-- F13, tree-shaken by the old code: the `Type::Process` entry is gone (no instruction refers to
+it) — the same input without it -/
 def f13Shaken : CInput :=
   ⟨⟨[.integer, .union [], .callable 0 0 1], [⟨none, []⟩, ⟨some 1, []⟩]⟩, [⟨2, [2]⟩], [], []⟩
 
